@@ -210,7 +210,9 @@ func C15(c *core.Ctx) {
 	c.Add("distinct_nontrivial", nt)
 	c.Sample(map[string]any{"training": jobs[0].Training, "target": jobs[0].Target, "placeholder": jobs[0].P, "output": cases[0]["stdout"]})
 	c.JudgeAndReport("Trace_Infer", "Trace_Infer.cfg", cases, 8,
-		func(old map[string]any) map[string]any { return inferCase(bin, root, old["id"].(int), jobs[old["id"].(int)-1]) },
+		func(old map[string]any) map[string]any {
+			return inferCase(bin, root, old["id"].(int), jobs[old["id"].(int)-1])
+		},
 		func(cs map[string]any) (string, string) {
 			return "infer:" + fmt.Sprint(cs["why"]), fmt.Sprintf("knut infer -a %v: %v\n--- training\n%v\n--- target\n%v\n--- output\n%v\n%v", cs["P"], cs["why"], cs["training"], cs["target"], cs["stdout"], cs["stderr"])
 		})
